@@ -453,8 +453,15 @@ pub fn token_diff_sig(a: &[String], b: &[String], i: usize) -> String {
 pub fn has_interior_comment(l: &Lexed) -> bool {
     let mut prev_code: Option<&str> = None;
     let mut depth = 0i32; // nesting in ( ) and [ ]
+    // A comment right after `}` is interior iff the construct goes on after it (`{ 1 } // c` then `;`,
+    // `,`, `.`, an operator): decided when the next code token is seen.
+    let mut comment_after_close = false;
     for (is_code, s) in &l.segments {
         if *is_code {
+            if comment_after_close && matches!(s.as_str(), ";" | "," | "." | ")" | "]" | "=>" | "=" | "+" | "-" | "*" | "/" | "?" | "else") {
+                return true;
+            }
+            comment_after_close = false;
             match s.as_str() {
                 "(" | "[" => depth += 1,
                 ")" | "]" => depth -= 1,
@@ -464,6 +471,9 @@ pub fn has_interior_comment(l: &Lexed) -> bool {
         } else if s.starts_with("//") {
             if depth > 0 || !matches!(prev_code, None | Some(";") | Some("{") | Some("}")) {
                 return true;
+            }
+            if prev_code == Some("}") {
+                comment_after_close = true;
             }
         }
     }
